@@ -49,6 +49,7 @@ type Case struct {
 	// codec level
 	BA, BS  int    `json:",omitempty"`
 	Frames  int    `json:",omitempty"` // number of frames (0 allowed)
+	Short   int    `json:",omitempty"` // 0: every frame has Buf bytes; k>0: frame k-1 has Buf bytes, the others the full length
 	NilInfo bool   `json:",omitempty"`
 	ParMode string `json:",omitempty"` // nil | foreign | typed-bad
 	ParVal  int    `json:",omitempty"`
@@ -312,8 +313,16 @@ func checkCodec(c *Case, o *core.Outcome) {
 		o.Label("nil-frameinfo")
 	}
 	src := codec.NewTestPixelData(info)
+	full := c.W * c.H * c.C * ((c.BA + 7) / 8)
 	for i := 0; i < c.Frames; i++ {
+		if c.Short > 0 && i != c.Short-1 {
+			_ = src.AddFrame(buffer(full))
+			continue
+		}
 		_ = src.AddFrame(buffer(c.Buf))
+	}
+	if c.Short > 1 {
+		o.Label("short-later-frame")
 	}
 	if c.Frames == 0 {
 		o.Label("zero-frames")
@@ -339,6 +348,23 @@ func checkCodec(c *Case, o *core.Outcome) {
 	if c.NilInfo || c.W == 0 || c.H == 0 || c.C == 0 {
 		o.Fail = core.Failf("accepted-invalid", "codec %s accepted nilInfo=%v frames=%d %dx%d spp=%d", c.Enc, c.NilInfo, c.Frames, c.W, c.H, c.C)
 		return
+	}
+	// "a pixel buffer shorter than width x height x components x bytes-per-sample ... returns an
+	// error": at this level every frame is such a buffer. Asserted where the bytes-per-sample of
+	// the description is unambiguous (BitsStored fills the same number of bytes as BitsAllocated;
+	// see KF-C10-1 for the other descriptions).
+	if (c.BA == 8 || c.BA == 16) && c.BS >= 1 && c.BS <= c.BA && (c.BS+7)/8 == c.BA/8 && (c.C == 1 || c.C == 3) {
+		full := c.W * c.H * c.C * (c.BA / 8)
+		for i := 0; i < c.Frames; i++ {
+			n := c.Buf
+			if c.Short > 0 && i != c.Short-1 {
+				n = full
+			}
+			if n < full {
+				o.Fail = core.Failf("accepted-invalid", "codec %s accepted frame %d of %d with %d bytes; %dx%dx%d at %d bits needs %d", c.Enc, i, c.Frames, n, c.W, c.H, c.C, c.BA, full)
+				return
+			}
+		}
 	}
 	planes := (c.BA + 7) / 8 * c.C
 	if c.Enc == "RLE" && planes > 15 {
@@ -473,7 +499,7 @@ func Gen(t *rapid.T) *Case {
 		c.C = rapid.SampledFrom([]int{0, 1, 1, 2, 3, 3, 4, 16, 16384, 21846, 32768, 32769, 65535}).Draw(t, "spp")
 		c.BA = rapid.SampledFrom([]int{0, 1, 7, 8, 8, 9, 12, 16, 16, 24, 32, 64, 65535}).Draw(t, "ba")
 		c.BS = rapid.SampledFrom([]int{0, 1, 2, 8, 8, 12, 16, 17, 65535}).Draw(t, "bs")
-		c.Frames = rapid.SampledFrom([]int{0, 1, 1, 2}).Draw(t, "frames")
+		c.Frames = rapid.SampledFrom([]int{0, 1, 1, 2, 2, 3}).Draw(t, "frames")
 		c.NilInfo = rapid.IntRange(0, 7).Draw(t, "nilinfo") == 0
 		c.ParMode = rapid.SampledFrom([]string{"nil", "nil", "foreign", "foreign-types", "typed-bad"}).Draw(t, "parmode")
 		c.ParVal = rapid.SampledFrom([]int{-1, 0, 1, 3, 7, 8, 100, 101, 255, 256, 1000, 1 << 30}).Draw(t, "parval")
@@ -487,6 +513,10 @@ func Gen(t *rapid.T) *Case {
 		c.Buf = rapid.SampledFrom([]int{0, 1, need - 1, need, need, need + 1}).Draw(t, "buf")
 		if c.Buf < 0 {
 			c.Buf = 0
+		}
+		// one frame with Buf bytes among full-length ones (only for frames that fit a mebibyte)
+		if c.Frames >= 2 && need > 0 && need <= 1<<20 && c.W*c.H*c.C*((c.BA+7)/8) == need {
+			c.Short = rapid.IntRange(0, c.Frames).Draw(t, "short")
 		}
 		return c
 	}
@@ -609,6 +639,24 @@ func TestLattice(t *testing.T) {
 				}
 				for _, buf := range []int{64, 4 * (ba / 8) * min(spp, 64)} {
 					eval(&Case{Level: "codec", Enc: enc, W: 2, H: 2, C: spp, BA: ba, BS: min(ba, 16), Frames: 1, ParMode: "nil", Buf: buf})
+				}
+			}
+		}
+	}
+	// codec level: one short (or empty) frame at every position among full-length frames
+	for _, enc := range codecKeys {
+		for _, spp := range []int{1, 3} {
+			for _, ba := range []int{8, 16} {
+				if ba == 16 && (enc == "50" || enc == "51") {
+					continue
+				}
+				need := 5 * 3 * spp * ba / 8
+				for _, buf := range []int{0, 1, need / 2, need - 5*spp*ba/8, need - 1} {
+					for frames := 1; frames <= 3; frames++ {
+						for short := 1; short <= frames; short++ {
+							eval(&Case{Level: "codec", Enc: enc, W: 5, H: 3, C: spp, BA: ba, BS: ba, Frames: frames, Short: short, ParMode: "nil", Buf: buf})
+						}
+					}
 				}
 			}
 		}
